@@ -3,8 +3,8 @@ from vlib.core import Standard, Case, standard_check
 import os
 
 # (MTUSize, layout overhead); 23 is the pass-through specialisation
-CONFIGS = [(23, 0), (24, 0), (27, 0), (65, 0), (100, 0), (247, 0), (24, 1), (100, 1)]
-CONFIGS_THOROUGH = [(23, 1), (40, 0), (28, 0), (65, 1), (247, 1), (517, 0), (64, 2)]
+CONFIGS = [(23, 0), (24, 0), (27, 1), (65, 0), (100, 1), (247, 0)]
+CONFIGS_THOROUGH = [(23, 1), (24, 1), (27, 0), (40, 0), (28, 0), (65, 1), (100, 0), (247, 1), (517, 0), (64, 2)]
 TX_LIMIT = 6      # PDUs in the transmit ring (the harness' ring never refuses below this)
 RX_LIMIT = 22     # PDUs in the receive ring
 
@@ -123,6 +123,8 @@ class Gen:
             frags = frags[1:] or [(1, self.rnd(r.choice([1, 5, room])))]
         if kind == "llid0":
             frags.insert(r.randrange(0, len(frags) + 1), (0, self.rnd(3)))
+        if kind == "toolong":                      # more than the radio receives: never reaches the buffer
+            frags.insert(r.randrange(0, len(frags) + 1), (r.choice([1, 2]), self.rnd(min(room + r.choice([1, 2, 9]), 255))))
         for llid, body in frags:
             self.rx(llid, body)
             x = r.random()
@@ -171,7 +173,7 @@ class Gen:
 
 
 RX_KINDS = ["ok"] * 10 + ["short", "long", "overlong_cont", "overlong_cont", "restart", "restart", "zero", "nostart",
-                          "tinystart", "lenfield", "lenfield", "llid0"]
+                          "tinystart", "lenfield", "lenfield", "llid0", "toolong"]
 TX_KINDS = ["ok"] * 6 + ["boundary"] * 3 + ["pre"]
 
 
@@ -226,7 +228,7 @@ class C19(Standard):
     def generate(self, ctx):
         rng = ctx.rng
         cases = []
-        per = 60 if not ctx.thorough else 1500
+        per = 80 if not ctx.thorough else 1500
         for mtu, oh in self.configs(ctx):
             cfg = [str(mtu), str(oh)]
             for k in range(per):
@@ -239,7 +241,7 @@ class C19(Standard):
 
     def nontrivial(self, case, outputs):
         # a reassembled SDU was delivered, or an outgoing SDU needed a continuation fragment
-        return any(o.startswith("sdu ") or "; tx 1:" in o or " 1:" in o.split("; tx")[-1] for o in outputs if o)
+        return any(o.startswith("sdu ") or ("; tx" in o and " 1:" in o.split("; tx", 1)[1]) for o in outputs if o)
 
 
 META = dict(
